@@ -1464,7 +1464,14 @@ impl ErasedNode for Node {
         let mut parent_indices = parent_indices_cell.borrow_mut();
         tracing::debug!(child_id = ?child.id, child_index = %child_index, parent = %parent.kind_debug_ty(), "remove_parent");
 
-        let parent_index = parent_indices.my_parent_index_in_child_at_index[child_index as usize];
+        // If linking the parent's children was cut short (a height-limit panic raised while an
+        // earlier child was being linked), this child was never registered: nothing to unlink.
+        let Some(&parent_index) = parent_indices
+            .my_parent_index_in_child_at_index
+            .get(child_index as usize)
+        else {
+            return;
+        };
 
         debug_assert!(
             child_parents.len() >= 1 && parent_index >= 0,
